@@ -51,13 +51,17 @@ def lemmas(run, serv):
 
 
 def build_c(run):
-    tu = get_tu()
-    con = the_contract(tu)
-    lemmas(run, con.SERV)
-    K.verify(run, ID, tu, con)
+    def section():
+        tu = get_tu()
+        con = the_contract(tu)
+        lemmas(run, con.SERV)
+        K.verify(run, ID, tu, con)
+        run.extra["verbatim_extraction"] = tu.extraction
+    # one function, one contract with three loop invariants: when it cannot be bound to the current shape of the function the whole
+    # section is out of reach (bounded native oracle oracles/c_C20.py stands in)
+    K.sect(run, "gsm48_decode_mobile_alloc", section)
     run.assume("freq[1024], ma[len], hopping[64], *hopp_len are valid, pairwise separate objects (both call sites pass members of "
                "struct gsm48_sysinfo / struct gsm48_rrlayer and a message buffer)")
-    run.extra["verbatim_extraction"] = tu.extraction
     K.finish(run)
 
 
@@ -184,7 +188,7 @@ def replay_c(payload):
     import os
     w = payload["inputs"]
     if w.get("func") == "lemma":
-        return {"confirmed": False, "observed": "spec-level lemma", "expected": "n/a"}
+        return {"confirmed": False, "error": "spec-level lemma: there is no native run that could refute or confirm it", "observed": "spec-level lemma", "expected": "n/a"}
     tu = get_tu()
     con = the_contract(tu)
     ln, si4, ma, mask = w["len"], w["si4"], list(w["ma"]), list(w["mask"])
